@@ -750,6 +750,6 @@ func kvGen(rt *rapid.T) kvCase {
 
 func TestVerif_C12_kv(t *testing.T) {
 	kvSetup(t)
-	kit.Run(t, "C12", "kv-single-server", kit.Opts{Quick: 800, Thorough: 80000}, kvGen,
+	kit.Run(t, "C12", "kv-single-server", kit.Opts{Quick: 800, Thorough: 64000}, kvGen,
 		func(c kvCase) kit.Verdict { return kvInterp(t, c) })
 }
